@@ -8,6 +8,7 @@ import (
 	"os"
 	"os/exec"
 	"sync"
+	"time"
 
 	"zverif/sx"
 )
@@ -60,6 +61,13 @@ func (c *Client) Ask(req sx.V) (sx.V, error) {
 	c.mu.Lock()
 	defer c.mu.Unlock()
 	c.Asked++
+	if os.Getenv("ZV_TRACE") != "" {
+		t0 := time.Now()
+		rs := req.String()
+		defer func() {
+			fmt.Fprintf(os.Stderr, "[model] req kind=%s len=%d took %v\n", rs[1:3], len(rs), time.Since(t0))
+		}()
+	}
 	if _, err := io.WriteString(c.in, req.String()+"\n"); err != nil {
 		return sx.V{}, err
 	}
